@@ -742,3 +742,20 @@ func FreeZeroCapacities(rng *Rng) (string, Cfg) {
 	c.WaitInput = 2
 	return "free-zero-capacities", c
 }
+
+// FreeConsumerPause: the inbound side of "the package's tunable set small": TConnReadTimeout = 1 s,
+// a small inbound queue, the peer pipelines many frames, the consumer is away for longer than
+// the limit (before its first receive and once more with the queue full again) and then drains:
+// it must still see every frame once, in wire order.
+func FreeConsumerPause(rng *Rng) (string, Cfg) {
+	c := base(rng, 0)
+	var g idGen
+	c.ReadTimeout = 1
+	c.Icap = rng.Range(1, 4)
+	c.Input = inputFrames(rng, rng.Range(5, 30), smallSizes)
+	c.Senders = [][]PktSpec{g.pkts(rng, rng.Range(0, 5), smallSizes)}
+	c.Closers = []bool{true}
+	c.ConsumerPause = rng.Range(1500, 2200)
+	c.WaitInput = 2
+	return "free-consumer-pause", c
+}
